@@ -286,3 +286,178 @@ def shrink_candidates(desc):
             yield (kind, {"root": dict(r, kids=[])}, [])
             for k in r["kids"]:
                 yield (kind, {"root": k}, [])
+
+
+# ------------------------------------------------------------------------------------------------ small trees
+# Bounded-exhaustive stream (no randomness): every kind of renderable with every value of its boolean / enum options and
+# small / threshold values of its numeric options, over three leaves, nested to depth 2.
+
+LEAVES = [("str", {"s": "ab"}, []), ("text", {"s": "あ x"}, []), ("str", {"s": ""}, [])]
+LEAF = LEAVES[0]
+
+
+def _prod(**axes):
+    import itertools
+
+    keys = list(axes)
+    for vals in itertools.product(*[axes[k] for k in keys]):
+        yield dict(zip(keys, vals))
+
+
+TABLE_COLS = [
+    [],
+    [{}],
+    [{"ratio": 1}, {"ratio": 0}],
+    [{"width": 3}, {}],
+    [{"no_wrap": True, "min_width": 4}, {"max_width": 2}],
+    [{"ratio": 2, "max_width": 2}, {"ratio": 1, "min_width": 3}, {"width": 1}],
+]
+
+
+def _col(extra, i):
+    c = {"header": "h%d" % i, "footer": "f", "justify": "left", "overflow": "ellipsis", "no_wrap": False}
+    c.update(extra)
+    return c
+
+
+def _table(core, cols, **over):
+    o = {
+        "cols": [_col(c, i) for i, c in enumerate(cols)],
+        "rows": [[i for i in range(len(cols))]] if cols else [[]],
+        "grid": False, "box": "SQUARE", "width": None, "min_width": None, "padding": (0, 1), "collapse_padding": False, "pad_edge": True,
+        "expand": False, "show_header": True, "show_footer": False, "show_edge": True, "show_lines": False, "leading": 0, "title": None, "caption": None,
+    }
+    o.update(core)
+    o.update(over)
+    return ("table", o, [LEAVES[i % len(LEAVES)] for i in range(len(cols))])
+
+
+def level1():
+    """every kind x every option value, children = leaves"""
+    for leaf in LEAVES:
+        for o in _prod(box=["ROUNDED", "ASCII"], expand=[True, False], padding=[0, (0, 1), (1, 2, 0, 3)], width=[None, 1, 3], title=[None, "t", "a long title"], fit=[False, True]):
+            if o["title"] is None:
+                o.pop("title")
+            else:
+                o["title_align"] = "left" if o["expand"] else "right"
+            yield ("panel", o, [leaf])
+        for o in _prod(pad=[0, 1, (0, 3), (2,), (1, 0, 2, 5)], expand=[True, False]):
+            yield ("padding", o, [leaf])
+        for o in _prod(align=ALIGN, pad=[True, False], width=[None, 1, 4]):
+            yield ("align", o, [leaf])
+        for wd in (None, 1, 3, 80):
+            yield ("constrain", {"width": wd}, [leaf])
+        yield ("styled", {"style": "bold"}, [leaf])
+    for fit in (True, False):
+        for kids in ([], [LEAVES[0]], [LEAVES[1], LEAVES[0]], [("pbar", {"total": 1, "completed": 0.5, "width": 3, "pulse": False}, []), LEAVES[0]]):
+            yield ("group", {"fit": fit}, kids)
+    for o in _prod(padding=[0, (0, 1), (0, 3)], width=[None, 1, 3, 7], expand=[False, True], equal=[False, True], column_first=[False, True], right_to_left=[False, True], align=[None, "center"], n=[0, 1, 3]):
+        n = o.pop("n")
+        if n < 3 and (o["column_first"] or o["right_to_left"]):
+            continue
+        o["title"] = None
+        yield ("columns", o, [LEAVES[i % 2] for i in range(n)])
+    yield ("columns", {"padding": (0, 1), "width": None, "expand": True, "equal": False, "column_first": False, "right_to_left": False, "align": None, "title": "T"}, [LEAVES[0], LEAVES[1]])
+    # tables: the interacting options in full product, the independent ones one at a time
+    for core in _prod(expand=[False, True], width=[None, 1, 3, 12], min_width=[None, 5, 40], box=[None, "SQUARE"], show_edge=[True, False]):
+        for cols in TABLE_COLS:
+            yield _table(core, cols)
+            for k, v in (("pad_edge", False), ("collapse_padding", True), ("show_header", False), ("show_footer", True), ("show_lines", True), ("leading", 2), ("padding", 0), ("padding", (1, 2, 0, 3)), ("title", "T"), ("caption", "cap"), ("grid", True)):
+                if core["width"] in (None, 3) and core["min_width"] in (None, 5):
+                    yield _table(core, cols, **{k: v})
+    for expanded in (True, False):
+        for shape in (0, 1, 2):
+            for lab in LEAVES[:2]:
+                def node(d):
+                    return {"label": lab, "expanded": expanded, "kids": [node(d - 1) for _ in range(2 if d else 0)]}
+                yield ("tree", {"root": node(shape)}, [])
+    for o in _prod(title=["", "t", "a long rule title"], align=ALIGN, characters=["─", "-=", "あ"]):
+        yield ("rule", o, [])
+    for o in _prod(width=[None, 1, 5], begin=[0, 2.5], end=[2.5, 10]):
+        yield ("bar", dict(o, size=10), [])
+    for o in _prod(width=[None, 1, 5], pulse=[False, True], completed=[0, 0.5, 2]):
+        yield ("pbar", dict(o, total=1), [])
+    yield ("pretty", {"obj": [1, "two", {"k": (3,)}]}, [])
+    yield ("pretty", {"obj": list(range(30))}, [])
+    # degenerate numbers that rich accepts today (zero sizes / totals / widths): they must keep not raising
+    yield ("bar", {"size": 0, "begin": 0, "end": 0, "width": None}, [])
+    yield ("bar", {"size": 10, "begin": 5, "end": 2, "width": 3}, [])
+    yield ("bar", {"size": 10, "begin": -5, "end": 20, "width": None}, [])
+    yield ("pbar", {"total": 0, "completed": 0, "width": None, "pulse": False}, [])
+    yield ("pbar", {"total": 0, "completed": 1, "width": 4, "pulse": False}, [])
+    yield ("pbar", {"total": 10, "completed": -5, "width": 0, "pulse": False}, [])
+    for leaf in LEAVES[:2]:
+        yield ("constrain", {"width": 0}, [leaf])
+        yield ("align", {"align": "center", "pad": True, "width": 0}, [leaf])
+        yield ("panel", {"box": "ROUNDED", "expand": True, "padding": (0, 1), "width": 0}, [leaf])
+        yield ("columns", {"padding": 0, "width": 0, "expand": False, "equal": False, "column_first": False, "right_to_left": False, "align": None, "title": None}, [leaf, leaf])
+        yield _table({"width": 0}, TABLE_COLS[1])
+        yield _table({}, [{"width": 0}])
+        yield _table({"expand": True}, [{"ratio": 0}])
+        yield _table({"min_width": 1000}, TABLE_COLS[1])
+
+
+def _reps():
+    """a few representatives of every kind (default options and the narrowest), to be nested"""
+    yield LEAVES[0]
+    yield LEAVES[1]
+    yield ("panel", {"box": "ROUNDED", "expand": True, "padding": (0, 1), "width": None}, [LEAF])
+    yield ("panel", {"box": "ASCII", "expand": False, "padding": 0, "width": 3, "title": "t", "title_align": "center"}, [LEAF])
+    yield ("padding", {"pad": (0, 3), "expand": False}, [LEAF])
+    yield ("align", {"align": "right", "pad": True, "width": None}, [LEAF])
+    yield ("constrain", {"width": 3}, [LEAF])
+    yield ("group", {"fit": True}, [LEAVES[1], LEAF])
+    yield ("columns", {"padding": (0, 1), "width": None, "expand": False, "equal": True, "column_first": True, "right_to_left": False, "align": None, "title": None}, [LEAF, LEAVES[1], LEAF])
+    yield ("columns", {"padding": 0, "width": 7, "expand": True, "equal": False, "column_first": False, "right_to_left": True, "align": "center", "title": None}, [LEAF, LEAVES[1]])
+    yield _table({}, TABLE_COLS[1])
+    yield _table({"expand": True, "min_width": 5}, TABLE_COLS[2])
+    yield _table({"width": 3, "box": None}, TABLE_COLS[3])
+    yield _table({"expand": True}, [])
+    yield ("tree", {"root": {"label": LEAF, "expanded": True, "kids": [{"label": LEAVES[1], "expanded": True, "kids": []}]}}, [])
+    yield ("rule", {"title": "t", "align": "center"}, [])
+    yield ("bar", {"size": 10, "begin": 0, "end": 5, "width": None}, [])
+    yield ("pbar", {"total": 1, "completed": 0.5, "width": None, "pulse": False}, [])
+    yield ("pretty", {"obj": [1, 2]}, [])
+
+
+def level2():
+    """every representative inside every kind of container"""
+    for inner in _reps():
+        yield ("panel", {"box": "SQUARE", "expand": False, "padding": (0, 1), "width": None}, [inner])
+        yield ("panel", {"box": "SQUARE", "expand": True, "padding": 0, "width": None, "title": "t", "title_align": "left", "fit": False}, [inner])
+        yield ("padding", {"pad": 1, "expand": True}, [inner])
+        yield ("align", {"align": "center", "pad": True, "width": None}, [inner])
+        yield ("constrain", {"width": 3}, [inner])
+        yield ("styled", {"style": "red"}, [inner])
+        yield ("group", {"fit": True}, [inner, LEAF])
+        yield ("columns", {"padding": (0, 1), "width": None, "expand": False, "equal": False, "column_first": False, "right_to_left": False, "align": None, "title": None}, [inner, LEAF])
+        yield ("columns", {"padding": (0, 1), "width": 3, "expand": True, "equal": True, "column_first": False, "right_to_left": False, "align": "left", "title": None}, [inner, inner])
+        t = _table({}, [{}, {"ratio": 1}])
+        yield (t[0], t[1], [inner, LEAF])
+        t = _table({"expand": True, "box": None}, [{"no_wrap": True}])
+        yield (t[0], t[1], [inner])
+        yield ("tree", {"root": {"label": inner, "expanded": True, "kids": [{"label": inner, "expanded": True, "kids": []}]}}, [])
+
+
+def small_trees():
+    yield from level1()
+    yield from level2()
+
+
+def option_widths(desc):
+    """explicit width options anywhere in the tree (structural thresholds)"""
+    out = set()
+    kind, o, kids = desc
+    for k in ("width", "min_width"):
+        if isinstance(o.get(k), int):
+            out.add(o[k])
+    for c in o.get("cols", []) if kind == "table" else []:
+        for k in ("width", "min_width", "max_width"):
+            if isinstance(c.get(k), int):
+                out.add(c[k])
+    for k in kids:
+        out |= option_widths(k)
+    if kind == "tree":
+        for n in _tree_nodes(o["root"]):
+            out |= option_widths(n["label"])
+    return out
